@@ -3,6 +3,7 @@ import RbV.Basic.Sorted
 import RbV.Model.ShiftAnd
 import RbV.Model.Horspool
 import RbV.Model.Kmp
+import RbV.Model.Bndm
 /-!
 # C08 — exact matchers return exactly all occurrences
 
@@ -71,5 +72,15 @@ theorem kmp_lps_is_border_table (p : List Nat) (hp : 0 < p.length) :
 
 example : Kmp.findAll [1, 2, 1] [1, 2, 1, 2, 1] = [0, 2] := by decide
 example : Kmp.lps [1, 2, 1, 2, 3] = [0, 0, 1, 2, 0] := by decide
+
+/-- **BNDM** (mirror model of `bndm.rs`: masks of the reversed pattern, the all-ones start state saturated at
+m = 64, the right-to-left factor scan with 64-bit truncating shift, `lastsuffix`, the window shift
+`m - lastsuffix`) never underflows `window - j`, never indexes out of bounds, and yields exactly the oracle's list
+for every pattern of 1..64 symbols and every text: no occurrence is skipped by a window shift. -/
+theorem bndm_exact (p t : List Nat) (hp : 0 < p.length) (hm : p.length ≤ 64) :
+    Bndm.findAll p t = some (occurrences p t) :=
+  Bndm.findAll_eq_occurrences p t hp hm
+
+example : Bndm.findAll [1, 2, 1] [1, 2, 1, 2, 1] = some [0, 2] := by decide
 
 end RbV.Thm.C08
